@@ -70,18 +70,24 @@ pub fn strategy() -> impl Strategy<Value = Case> {
             let exts = ["", ".sh", ".py"];
             let mut targets = vec![];
             let mut defs = vec![];
+            let mut shared_ext: BTreeMap<(String, String), String> = BTreeMap::new();
             for (i, p) in layout.iter().enumerate() {
                 let (kind, ext, custom_cmd_dir, custom_arg_dir) = per_target[i % per_target.len()];
                 let mut t = TargetSpec::new(p);
+                // custom directories are shared between targets half of the time
                 if custom_cmd_dir {
-                    t.commands_path = Some(format!("tools/cmds{}", i));
+                    t.commands_path = Some(if ext % 2 == 0 { "tools/shared-cmds".to_string() } else { format!("tools/cmds{}", i) });
                 }
                 if custom_arg_dir {
-                    t.argmaps_path = Some(format!("tools/args{}", i));
+                    t.argmaps_path = Some(if kind % 2 == 0 { "tools/shared-args".to_string() } else { format!("tools/args{}", i) });
                 }
                 for (ci, c) in commands.iter().enumerate() {
                     let k = (kind as usize + ci * 3) % 10;
-                    let e = exts[(ext as usize + ci) % 3].to_string();
+                    // one by-stem file per (directory, command): sharing targets use the same extension
+                    let e = shared_ext
+                        .entry((t.commands_dir(), c.clone()))
+                        .or_insert_with(|| exts[(ext as usize + ci) % 3].to_string())
+                        .clone();
                     let d = match k {
                         0..=3 => Def::Stem(e),
                         4 | 5 => Def::Explicit(format!("shared/bin/{}-impl{}", c, e)),
@@ -171,7 +177,8 @@ pub fn strategy() -> impl Strategy<Value = Case> {
         })
 }
 
-fn expected_exe(cfg: &ConfigSpec, target: &str, cmd: &str, d: &Def) -> Option<String> {
+/// The file a definition installs (None for Undefined).
+fn installed_file(cfg: &ConfigSpec, target: &str, cmd: &str, d: &Def) -> Option<String> {
     let t = cfg.target(target)?;
     match d {
         Def::Stem(ext) | Def::EmptyDef(ext) => Some(format!("{}/{}{}", t.commands_dir(), cmd, ext)),
@@ -180,15 +187,41 @@ fn expected_exe(cfg: &ConfigSpec, target: &str, cmd: &str, d: &Def) -> Option<St
     }
 }
 
+/// What the documented resolution yields for (target, command), given everything that is
+/// on disk: the explicit definition path if one is configured, otherwise the file in the
+/// target's command directory whose stem equals the command (possibly installed on behalf
+/// of another target sharing that directory).
+fn expected_exe(case: &Case, target: &str, cmd: &str, d: &Def) -> Option<String> {
+    let cfg = &case.config;
+    if let Def::Explicit(p) = d {
+        return Some(p.clone());
+    }
+    let dir = cfg.target(target)?.commands_dir();
+    for (t2, c2, d2) in &case.defs {
+        if c2 == cmd && matches!(d2, Def::Stem(_) | Def::EmptyDef(_)) && cfg.target(t2)?.commands_dir() == dir {
+            return installed_file(cfg, t2, c2, d2);
+        }
+    }
+    None
+}
+
+/// argmap files as they end up on disk: path -> content (targets may share a directory;
+/// a later file with the same path replaces an earlier one)
+fn argmap_disk(case: &Case) -> BTreeMap<String, BTreeMap<String, Vec<String>>> {
+    let mut m = BTreeMap::new();
+    for (t, name, content) in &case.argmap_files {
+        let dir = case.config.target(t).unwrap().argmaps_dir();
+        m.insert(format!("{}/{}.json", dir, name), content.clone());
+    }
+    m
+}
+
 fn expected_args(case: &Case, target: &str, cmd: &str) -> (Vec<String>, usize) {
     let mut v = vec![];
     let mut sources = 0;
-    let file = |name: &str| {
-        case.argmap_files
-            .iter()
-            .find(|f| f.0 == target && f.1 == name)
-            .and_then(|f| f.2.get(cmd).cloned())
-    };
+    let disk = argmap_disk(case);
+    let dir = case.config.target(target).unwrap().argmaps_dir();
+    let file = |name: &str| disk.get(&format!("{}/{}.json", dir, name)).and_then(|f| f.get(cmd).cloned());
     if !case.no_base {
         if let Some(a) = file("base") {
             if !a.is_empty() {
@@ -217,7 +250,7 @@ pub fn check(case: &Case, w: usize) -> CheckResult {
     let mut env = Env::new(w);
     env.install_config(cfg);
     for (t, c, d) in &case.defs {
-        if let Some(exe) = expected_exe(cfg, t, c, d) {
+        if let Some(exe) = installed_file(cfg, t, c, d) {
             env.install_command(&exe, true);
         }
     }
@@ -232,9 +265,8 @@ pub fn check(case: &Case, w: usize) -> CheckResult {
             env.install_command(p, true);
         }
     }
-    for (t, name, content) in &case.argmap_files {
-        let dir = cfg.target(t).unwrap().argmaps_dir();
-        env.write_file(&format!("{}/{}.json", dir, name), serde_json::to_string(content).unwrap().as_bytes());
+    for (path, content) in argmap_disk(case) {
+        env.write_file(&path, serde_json::to_string(&content).unwrap().as_bytes());
     }
     env.set_plan(&BTreeMap::new());
     let mut args: Vec<String> = vec!["run".into(), "-c".into()];
@@ -279,7 +311,7 @@ pub fn check(case: &Case, w: usize) -> CheckResult {
         if !selected.contains(t) {
             continue;
         }
-        let exe = expected_exe(cfg, t, c, d);
+        let exe = expected_exe(case, t, c, d);
         let (want_args, sources) = expected_args(case, t, c);
         let matches: Vec<usize> = traces
             .iter()
@@ -333,6 +365,16 @@ pub fn check(case: &Case, w: usize) -> CheckResult {
         .class_if(case.no_base, "no-base")
         .class_if(!case.cli_argmaps.is_empty(), "cli-argmaps")
         .class_if(!case.decoys.is_empty(), "decoys")
+        .class_if(
+            {
+                let dirs: Vec<String> = selected.iter().map(|t| cfg.target(t).unwrap().commands_dir()).collect();
+                let mut d = dirs.clone();
+                d.sort();
+                d.dedup();
+                d.len() < dirs.len()
+            },
+            "shared-commands-dir",
+        )
         .inv(env.invocations))
 }
 
